@@ -142,7 +142,7 @@ class MessageSigner(object):
     def pair_for_message_hash(self, signature: str, msg_hash: int) -> tuple[Any, bool]:
         """
         Take a signature, encoded in Base64, and return the pair it was signed by.
-        May raise EncodingError (from _decode_signature)
+        May raise EncodingError (from _decode_signature, or if the signature yields no public pair)
         """
 
         # Decode base64 and a bitmask in first byte.
@@ -150,9 +150,14 @@ class MessageSigner(object):
 
         # Calculate the specific public key used to sign this message.
         y_parity = recid & 1
-        q = self._generator.possible_public_pairs_for_signature(
+        pairs = self._generator.possible_public_pairs_for_signature(
             msg_hash, (r, s), y_parity=y_parity
-        )[0]
+        )
+        if not pairs:
+            raise EncodingError("no curve point for r")
+        q = pairs[0]
+        if q == self._generator.infinity():
+            raise EncodingError("signature yields the point at infinity")
         if recid > 1:
             order = self._generator.order()
             q = self._generator.Point(q[0] + order, q[1])
@@ -208,7 +213,11 @@ class MessageSigner(object):
         Decode the internal fields of the base64-encoded signature.
         """
 
-        sig = a2b_base64(signature)
+        try:
+            sig = a2b_base64(signature)
+        except ValueError:
+            # malformed base64 (binascii.Error) or non-ascii text
+            raise EncodingError("signature is not base64 encoded")
         if len(sig) != 65:
             raise EncodingError("Wrong length, expected 65")
 
